@@ -9,6 +9,7 @@ import (
 	"encoding/json"
 	"fmt"
 	"os"
+	"path/filepath"
 	"sort"
 	"testing"
 	"time"
@@ -85,6 +86,12 @@ func (a *agg) report(c *ev.Check) {
 		x := a.sigs[s]
 		byv[s] = x.count
 		x.task.ID = 0
+		// one replayable example per signature is always written (known findings get no artefact from ev.Report)
+		if eb, err := json.MarshalIndent(ev.Violation{Property: "C15", Signature: s, Check: "c15/" + x.layer, Message: x.msg, Replay: x.task}, "", " "); err == nil {
+			d := filepath.Join(ev.Root(), "out", "C15")
+			_ = os.MkdirAll(d, 0o755)
+			_ = os.WriteFile(filepath.Join(d, fmt.Sprintf("example-%s.json", keyHash(s)[:12])), eb, 0o644)
+		}
 		c.Report(ev.Violation{Signature: s, Check: "c15/" + x.layer, Message: fmt.Sprintf("%s   [%d violating executions with this signature; shortest shown]", x.msg, x.count), Replay: x.task})
 	}
 	if len(byv) > 0 {
@@ -179,11 +186,11 @@ func TestCheck(t *testing.T) {
 	exhaustive := true
 
 	// ---- (3) reachability first (small, fixed size), then (2) atomicity, then (1) history takes the rest
-	reachEnd := start.Add(budget * 25 / 100)
+	reachEnd := start.Add(budget * 20 / 100)
 	if !reachLayer(c, r, a, thorough, reachEnd) {
 		exhaustive = false
 	}
-	atomEnd := time.Now().Add(budget * 15 / 100)
+	atomEnd := time.Now().Add(budget * 30 / 100)
 	ax, aok := atomicLayer(t, c, thorough, atomEnd)
 	if !aok {
 		exhaustive = false
